@@ -5,7 +5,7 @@ P=$1; N=$2; W=/tmp/seed/$P; O=/tmp/seed/$P-out
 cd $W || exit 2
 git checkout -q -- . ; git apply $O/patch$N.diff || { echo "patch does not apply"; exit 2; }
 PYTHONPATH=$W/src timeout 600 /venv/bin/python $O/demo$N.py > $O/demo$N.with.log 2>&1; with=$?
-PYTHONPATH=$W/src env -u COBRAPY_VERIF timeout 3000 /venv/bin/python -m pytest -q -p no:cacheprovider --timeout=900 -n ${NPROC:-6} --junitxml=$O/junit$N.xml tests > $O/pytest$N.log 2>&1
+mkdir -p $O/tmp; PYTHONPATH=$W/src TMPDIR=$O/tmp env -u COBRAPY_VERIF timeout 3000 /venv/bin/python -m pytest -q -p no:cacheprovider --timeout=900 -n ${NPROC:-6} --junitxml=$O/junit$N.xml tests > $O/pytest$N.log 2>&1
 git checkout -q -- .
 PYTHONPATH=$W/src timeout 600 /venv/bin/python $O/demo$N.py > $O/demo$N.without.log 2>&1; without=$?
 /venv/bin/python - $P "$N" $with $without <<'PY'
